@@ -44,6 +44,9 @@ func c09Run(c *ctx, fn string, mp [][][][2]int, q [][2]int) {
 		}
 		g = append(g, poly)
 	}
+	// the rings are consecutive sections of one coordinate buffer (each with capacity reaching into the next): a
+	// containment test is a read-only question and must not disturb its neighbours
+	g = sharedBuffer(g).(orb.MultiPolygon)
 	setCurrent("planar."+fn, mp)
 	ones := 0
 	site := guard(func() {
